@@ -323,7 +323,7 @@ func VerifyAuthorization(dlg delegation.Delegation, prfs []delegation.Delegation
 
 		wvfr, werr := verifier.Wrap(vfr, issuer)
 		if werr != nil {
-			return nil, NewUnverifiableSignatureError(dlg, perr)
+			return nil, NewUnverifiableSignatureError(dlg, werr)
 		}
 
 		return VerifySignature(dlg, wvfr)
